@@ -603,7 +603,7 @@ def rule_save_tmp(ctx, R):
     w = ctx.prog.need(EN + "write_snapshot")
     fl = [(i, t) for i, t in w.calls() if callee(t) == W + "flush"]
     okret = [i for i, bb in enumerate(w.bbs) for st in bb["s"] if st["k"] == "=" and st["l"]["l"] == 0 and st["r"]["k"] == "agg" and st["r"]["a"] == "std::result::Result::Ok"]
-    R.floor("flush_calls", len(fl))
+    R.note("flush calls in write_snapshot: %d" % len(fl))
     good = False
     for i, t in fl:
         rs = shared.result_switch(w, i)
